@@ -154,8 +154,8 @@ def splitDecimal (b : Bytes) : Option (Bytes × Bytes) :=
 /-- `strconv.ParseFloat(s, 64)` on the modelled subset.
 * Any byte outside `[0-9A-Za-z+-._]` stops Go's scanner before the end of the text: error.
 * A text without a decimal digit is accepted only as `[+-]inf`, `[+-]infinity` (any case) or `nan`.
-* `[+-]digits[.digits]` is evaluated exactly; the value must be dyadic with ≤ 53 significant bits
-  (otherwise Go rounds) and not a negative zero. Everything else: `outOfDomain`. -/
+* A decimal with optional exponent is rounded to the nearest float64 (`Redka.parseFloatDec`);
+  negative zero, hexadecimal floats, underscores, overflow and subnormals: `outOfDomain`. -/
 def parseFloat (b : Bytes) : FloatRes :=
   if b.isEmpty then .invalid
   else if !b.all isAlphaNumFloatChar then .invalid
@@ -170,20 +170,11 @@ def parseFloat (b : Bytes) : FloatRes :=
       else if lb == asciiBytes "nan" && !signed then .outOfDomain
       else .invalid
     else
-      match splitDecimal body with
-      | none => .outOfDomain
-      | some (ip, fr) =>
-        let n := digitsVal (ip ++ fr) 0
-        let f := fr.length
-        if n == 0 then (if neg then .outOfDomain else .ok (.fin 0))
-        else if natBits n > 900 then .outOfDomain
-        else if n % (5 ^ f) != 0 then .outOfDomain
-        else
-          let q : Int := (n / 5 ^ f : Nat)
-          let d := Dyadic.ofIntWithPrec (if neg then -q else q) f
-          match d with
-          | .zero => .outOfDomain
-          | .ofOdd m _ _ => if natBits m.natAbs ≤ 53 then .ok (.fin d) else .outOfDomain
+      -- a text with a digit: `Redka.parseFloatDec` (decimal with optional exponent, correctly rounded)
+      match parseFloatDec b with
+      | .val d => .ok (.fin d)
+      | .invalid => .invalid
+      | .unknown => .outOfDomain
 
 /-! ### the combinators -/
 
